@@ -246,8 +246,13 @@ class SinkSessions(Stage):
         t = d.choice([0, 1000, 5_000_000, 123_456_789])
         for _ in range(d.int(4, 30)):
             t += d.choice([0, 1000, 250_000, 999_999, 1_000_000, 1_000_001, 2_500_000]) if d.chance(0.8) else d.int(0, 3_000_000)
-            k = d.weighted([(3, 'open'), (3, 'close'), (10, 'message')])
-            if k == 'message' and is_open:
+            k = d.weighted([(3, 'open'), (3, 'close'), (10, 'message'), (3, 'cmd')])
+            if k == 'cmd':
+                # typed while messages stream in (GDB mode): commands that show no message - a listing that matches nothing or does
+                # not parse, queries, help - leave the live view's sense of "the message shown before" alone
+                ops.append(['cmd', None, d.choice(['list xdg_toplevel', 'list .nope', 'list (', 'list wl_a@5', 'help', 'connection', 'filter', 'breakpoint',
+                                                   'matcher wl_display', 'list zz: *', 'frob', 'list ~ x']), t])
+            elif k == 'message' and is_open:
                 ops.append(['message', d.choice(is_open), d.choice(['sync', 'done', 'get_registry', 'delete_id']), t])
             elif k == 'close' and is_open:
                 c = d.choice(is_open)
@@ -281,6 +286,11 @@ class SinkSessions(Stage):
             if kind == 'open':
                 st[cid] = dict(next=2, cbs=[])
                 cm.open_connection(t / 1e6, cid, arg)
+                continue
+            if kind == 'cmd':
+                ctl.process_command(arg)
+                if any(session.MSG_LINE.match(l) for l in out.buffer[n0:].split('\n')):
+                    raise RuntimeError('harness: %r showed a message' % arg)
                 continue
             if kind == 'close':
                 cm.close_connection(t / 1e6, cid)
